@@ -500,3 +500,7 @@ def slices_of(obligation_name):
         if obligation_name == k or (k.endswith("_") and obligation_name.startswith(k)):
             out += v
     return out
+
+for _o in OBS:
+    if _o["name"].startswith("push_contract_"):
+        _o["props"] = _o["props"] + ["C01"]    # WF (king cache, WF6, e.p. file) is preserved by push: the induction C01's precondition rests on
